@@ -37,6 +37,7 @@ type lifeStep struct {
 		Evs  []Event `json:"evs"`
 		Term string  `json:"term"`
 	} `json:"want"`
+	Dev bool `json:"dev"` // the I layer predicts a deviation from the fresh result here (known finding)
 }
 
 type lifeWorld struct {
@@ -48,7 +49,8 @@ type lifeWorld struct {
 
 var lifeDocText = map[string]string{}
 
-var freshDocText = map[string]string{"d1": `{"a": 1, "c": 3, "abc": 2}`, "d2": `{"a": 1}`, "d3": `{"a": `, "d4": `{"c": 3}`}
+var freshDocText = map[string]string{"d1": `{"a": 1, "c": 3, "abc": 2}`, "d2": `{"a": 1}`, "d3": `{"a": `, "d4": `{"c": 3}`,
+	"d5": `{"it": {"id": 5}}`, "d6": `{"it": {"id": 5, "name": "x"}}`}
 
 func newLifeWorld() *lifeWorld {
 	w := &lifeWorld{schemas: map[string]*jschema.Schema{}, docs: map[string]jlib.Document{}}
@@ -64,6 +66,13 @@ func newLifeWorld() *lifeWorld {
 	w.schemas["s3"] = mk("s3", "{\n  \"a\": 1,\n  \"r\": @Rec // {optional: true}\n}", map[string]string{"@Rec": "{\n  \"r\": @Rec, // {optional: true}\n  \"x\": 1\n}"})
 	w.schemas["s4"] = mk("s4", "{\n  @K: 1, // {optional: true}\n  @K2: 2, // {optional: true}\n  \"a\": 1 // {optional: true}\n}",
 		map[string]string{"@K": "\"abc\" // {regex: \"^ab\"}", "@K2": "\"abc\" // {minLength: 3}"})
+	// two roots that were given the same user-type object; only s6 got the type @item inherits from, so s5 fails to compile
+	item := jschema.New("@item", "{ // {allOf: \"@base\"}\n  \"id\": 1\n}")
+	w.schemas["s5"] = jschema.New("s5", "{\n  \"it\": @item\n}")
+	_ = w.schemas["s5"].AddType("@item", item)
+	w.schemas["s6"] = jschema.New("s6", "{\n  \"it\": @item\n}")
+	_ = w.schemas["s6"].AddType("@item", item)
+	_ = w.schemas["s6"].AddType("@base", jschema.New("@base", "{\n  \"name\": \"abc\"\n}"))
 	for _, x := range []string{"x1", "x2", "x3"} {
 		w.docs[x] = jdoc.New(x, lifeDocText[x])
 	}
@@ -218,6 +227,12 @@ func init() {
 			if sw.schemas["s2"].Check() == nil {
 				fatal("fixture s2 should be rejected by Check")
 			}
+			if err := newLifeWorld().schemas["s6"].Check(); err != nil {
+				fatal("fixture s6 is not a valid schema: " + err.Error())
+			}
+			if newLifeWorld().schemas["s5"].Check() == nil {
+				fatal("fixture s5 should be rejected by Check")
+			}
 		}
 		// the same call on freshly built objects, computed once per operation instance
 		fresh := map[lifeOp]string{}
@@ -229,7 +244,7 @@ func init() {
 				}
 			}
 		}
-		var steps, mism int64
+		var steps, mism, predicted int64
 		parallelFor(len(hs), func(i int) {
 			h := hs[i]
 			world := newLifeWorld()
@@ -269,6 +284,14 @@ func init() {
 					want = "error ..."
 					ok = len(got) > 5 && got[:5] == "error"
 				}
+				if !ok && st.Dev {
+					// the implementation-shaped model (Life.tla, switch SharedTypeCompiledInPlace) predicts this very deviation: reported as
+					// predicted, and the rest of the history is still checked
+					if atomic.AddInt64(&predicted, 1) <= 3 {
+						w.Write(map[string]interface{}{"history": names, "step": si, "want": want, "got": got, "kind": st.Want.Kind, "predicted": true})
+					}
+					continue
+				}
 				if !ok {
 					atomic.AddInt64(&mism, 1)
 					w.Write(map[string]interface{}{"history": names, "step": si, "want": want, "got": got, "kind": st.Want.Kind})
@@ -283,7 +306,7 @@ func init() {
 				}
 			}
 		})
-		sb, _ := json.Marshal(map[string]int64{"histories": int64(len(hs)), "steps": steps, "mismatches": mism})
+		sb, _ := json.Marshal(map[string]int64{"histories": int64(len(hs)), "steps": steps, "mismatches": mism, "predicted_deviations": predicted})
 		fmt.Fprintln(os.Stderr, "@@SUMMARY "+string(sb))
 		return 0
 	})
